@@ -252,7 +252,7 @@ func runC01(c *Ctx, r *Report, tier string) {
 	r.Check(okX, "ONCE", c.fname(pa), "parseLong and parseShort are mutually exclusive per token", c.pos(pa.Pos()), "one of them per iteration", "both can run for one token")
 	sites, _ := c.callersOf(ocall)
 	for _, s := range sites {
-		r.Check(s.Fn == set, "ONCE", c.fname(s.Fn), "caller of Option.call", c.ipos(s.Call), "Set only", "Option.call called from "+c.fname(s.Fn))
+		r.Check(c.actsFor(s.Fn, set), "ONCE", c.fname(s.Fn), "caller of Option.call", c.ipos(s.Call), "Set only", "Option.call called from "+c.fname(s.Fn))
 	}
 	if d, ok := c.NeverTwice(ocall, c.isCallTo("(reflect.Value).Call"), false, nil); ok {
 		r.OK("ONCE", c.fname(ocall), "callback invoked once per call", c.pos(ocall.Pos()), "no path runs two reflect Calls")
